@@ -62,12 +62,12 @@ impl InferShapes for Slice {
                     && let Some(SymExpr::Value(step)) = step
                     && let SymExpr::Value(size) = dims[axis]
                 {
-                    let end = match *end {
-                        i32::MAX => None,
-                        end => Some(end as isize),
-                    };
-
-                    let range = SliceRange::new(*start as isize, end, *step as isize);
+                    // Use the end value as-is, like the operator does. `INT_MAX`
+                    // and `INT_MIN` are clamped to the dimension size when the
+                    // range is resolved. An open-ended range is not equivalent
+                    // to `INT_MAX` when the step is negative.
+                    let range =
+                        SliceRange::new(*start as isize, Some(*end as isize), *step as isize);
 
                     // When slicing a symbolic vec along axis 0, the result can
                     // also be a symbolic vec.
